@@ -201,16 +201,42 @@ def r2_service_handle(ctx):
             if not cfg:
                 R.anchor_lost("C10.R2", "RpcServiceCfg argument of RpcService::new in %s" % b.path)
                 continue
-            lv = tr.origins(b, cfg[0])
-            variants = sorted({l.detail.get("variant") if l.kind == "agg" else flow.leaf_str(l)[:50] for l in lv})
+            # (variant name, does its _pending_calls come from the connection's channel) for every way the cfg is built;
+            # a crate-local helper that builds it is followed (its parameter is mapped back to the caller's argument)
+            def cfg_shapes(body, op, depth=0):
+                out = []
+                for l in tr.origins(body, op):
+                    wb = F.bodies[l.where]
+                    if l.kind == "agg" and (l.detail.get("adt") or "").endswith("RpcServiceCfg"):
+                        tokv = False
+                        if "_pending_calls" in l.detail["fields"]:
+                            op2 = l.detail["ops"][l.detail["fields"].index("_pending_calls")]
+                            for l2 in tr.origins(wb, op2):
+                                if l2.kind == "call" and re.search(r"mpsc::channel$", l2.detail["callee"] or ""):
+                                    tokv = True
+                                elif l2.kind == "param":
+                                    tokv = ("param", l2.detail["idx"])
+                        out.append((l.detail.get("variant"), tokv))
+                    elif l.kind == "call" and depth < 2 and F.bodies.get(l.detail["callee"] or "") is not None and F.bodies[l.detail["callee"]].crate == SERVER:
+                        tgt = F.bodies[l.detail["callee"]]
+                        R.fn(tgt)
+                        for v, tk in cfg_shapes(tgt, {"cp": {"l": 0}}, depth + 1):
+                            if isinstance(tk, tuple):
+                                ai = tk[1] - 1
+                                tk = False
+                                if ai < len(l.detail["args"]):
+                                    for l3 in tr.origins(wb, l.detail["args"][ai]):
+                                        if l3.kind == "call" and re.search(r"mpsc::channel$", l3.detail["callee"] or ""):
+                                            tk = True
+                            out.append((v, tk))
+                    else:
+                        out.append((flow.leaf_str(l)[:50], False))
+                return out
+
+            shapes = cfg_shapes(b, cfg[0])
+            variants = sorted({v for v, _ in shapes})
             ok = variants == ["CallsAndSubscriptions"]
-            tok = False
-            for l in lv:
-                if l.kind == "agg" and l.detail.get("variant") == "CallsAndSubscriptions" and "_pending_calls" in l.detail["fields"]:
-                    op = l.detail["ops"][l.detail["fields"].index("_pending_calls")]
-                    for l2 in tr.origins(b, op):
-                        if l2.kind == "call" and re.search(r"mpsc::channel$", l2.detail["callee"] or ""):
-                            tok = True
+            tok = bool(shapes) and all(tk is True for _, tk in shapes)
             R.check(ok and tok, "C10.R2", "%s:ws-service-always-carries-token" % fkey(b), "the WebSocket connection's service carries the pending-call token on every path", "%s configures the WebSocket connection's service as %s: on the path without CallsAndSubscriptions{_pending_calls} the token is dropped at once, graceful shutdown does not wait for the handlers that are running and `stopped` resolves early" % (short(b.path), variants), where(nw))
     R.floor("C10.R2.ws-services", n, 2, "WebSocket service constructions (server + low-level ws::connect)")
 
